@@ -9,6 +9,8 @@ mod json;
 mod model;
 mod obs;
 mod props_a;
+mod props_w;
+mod props_x;
 mod rng;
 mod runner;
 mod simstream;
@@ -20,7 +22,11 @@ fn lookup(id: &str) -> Option<Box<dyn Prop>> {
     Some(match id {
         "C01" => Box::new(props_a::C01),
         "C02" => Box::new(props_a::C02),
+        "C03" => Box::new(props_x::C03),
         "C04" => Box::new(props_a::C04),
+        "C05" => Box::new(props_w::C05),
+        "C06" => Box::new(props_w::C06),
+        "C12" => Box::new(props_x::C12),
         "C11" => Box::new(props_a::C11),
         "C13" => Box::new(props_a::C13),
         "C14" => Box::new(props_a::C14),
@@ -35,6 +41,15 @@ fn arg(args: &[String], name: &str) -> Option<String> {
 fn main() {
     // panics are caught and judged by the harness; keep stderr quiet
     std::panic::set_hook(Box::new(|_| {}));
+    // C12 uses real descriptors (pipes): lift the soft descriptor limit to the hard one
+    // SAFETY: plain getrlimit/setrlimit calls.
+    unsafe {
+        let mut rl: libc::rlimit = std::mem::zeroed();
+        if libc::getrlimit(libc::RLIMIT_NOFILE, &mut rl) == 0 {
+            rl.rlim_cur = rl.rlim_max;
+            libc::setrlimit(libc::RLIMIT_NOFILE, &rl);
+        }
+    }
     let args: Vec<String> = std::env::args().collect();
     let cmd = args.get(1).map(|s| s.as_str()).unwrap_or("");
     let verif_dir = arg(&args, "--verif-dir").unwrap_or_else(|| "/verif".to_string());
